@@ -582,6 +582,9 @@ func main() {
 		f, _ := os.Create(p)
 		pprof.StartCPUProfile(f)
 	}
+	if _, _, isShard := ev.ShardInfo(); isShard {
+		concurrentPart(r) // worker process of the E3 part
+	}
 	nIDs := ev.Pick(r, 4, 6)
 	depth := ev.Pick(r, 7, 8)
 	if d := os.Getenv("VERIF_DEPTH"); d != "" {
@@ -597,6 +600,7 @@ func main() {
 		Expand:   func(h []event) bool { _, ex := excluded.Load(hkey(h)); return !ex },
 		MaxDepth: depth, Workers: 16,
 	})
+	concurrentPart(r)
 	r.Set("traces_validated_against_impl", r.Count("transitions"))
 	for _, k := range []string{"excluded_filter_false_positive", "excluded_add_queue_overflow", "excluded_cuckoo_eviction"} {
 		r.Add(k, 0)
